@@ -16,3 +16,20 @@ Definition src_mp_context (env arg : option Z) (dflt : Z) : option Z :=
 
 Definition pool_abort_passes_kwargs : bool := true.
 Definition loky_abort_passes_kwargs : bool := true.
+
+(* Parallel.__init__: with n_jobs given neither by the call nor by the context, default_n_jobs is read from the backend the
+   call really uses (true) or from the active backend of the enclosing context (false) *)
+Definition default_njobs_of_used_backend : bool := true.
+
+(* BatchedCalls.__reduce__: the pickled batch keeps the (nested backend, nested n_jobs) pair *)
+Definition reduce_keeps_njobs : bool := true.
+
+(* LokyBackend.configure: the idle-worker timeout handed to the executor; idle_worker_timeout = the value passed by the call
+   (None = not passed), obj = the one carried by the backend object *)
+Definition src_idle_worker_timeout (idle_worker_timeout : option Z) (obj : option Z) : result Z :=
+  bind (match idle_worker_timeout with
+  | Some idle_worker_timeout => (Ok idle_worker_timeout)
+  | None => (let idle_worker_timeout := (match obj with Some v => v | None => 300 end) in
+  Ok idle_worker_timeout)
+  end) (fun idle_worker_timeout =>
+  Ok (idle_worker_timeout)).
